@@ -416,10 +416,12 @@ def add_relations(rng, prog, feat):
                     if a.self_conflict_exclusive(t, x, y):
                         opts.append((x, y))
         if opts:
-            x, y = rng.choice(opts)
+            # prefer pairs where one side has further callers: the relation is then also lifted to (T, T') pairs
+            w = [1 + 3 * (len(a.trans_for.get(x, [])) + len(a.trans_for.get(y, [])) - 2) for x, y in opts]
+            x, y = rng.choices(opts, w)[0]
             if rng.random() < 0.5:
                 x, y = y, x
-            cands.insert(0, {"kind": "conflict", "a": x, "b": y, "prio": rng.choice(["U", "L", "R"])})
+            cands.insert(0, {"kind": "conflict", "a": x, "b": y, "prio": rng.choice(["U", "L", "R"] if not f["prio"] else ["L", "R", "L", "R", "U"])})
     # a relation may be declared on a provide() alias of a method instead of the method itself
     als = {}
     for al in prog.get("aliases", []):
